@@ -553,6 +553,16 @@ func TestMalformedOperandTable(t *testing.T) {
 			}
 		}
 	}
+	// literals of a type a slice bound does not admit, in every bound position and with the other bounds present / omitted
+	for _, lit := range []string{"2.5", "\"s\"", "[1]", "{}", "nil", "true", "1e3", "-2.5", "'x'", "0.0", "[]"} {
+		for _, obj := range []string{"a", "\"abc\"", "f()", "a[0]"} {
+			for _, form := range []string{"%s[%s:]", "%s[:%s]", "%s[::%s]", "%s[1::%s]", "%s[:2:%s]", "%s[1:2:%s]", "%s[%s:2]", "%s[1:%s]", "%s[%s::]", "%s[:%s:]"} {
+				one(t, "badoperand", "typed-literal-as-slice-bound", "x = "+fmt.Sprintf(form, obj, lit))
+				one(t, "badoperand", "typed-literal-as-slice-bound", "y = 1\nif y { z = "+fmt.Sprintf(form, obj, lit)+" }\nw = 2")
+				n += 2
+			}
+		}
+	}
 	evid.Exhaustive("malformed atom x operand position x parenthesis depth", n)
 }
 
